@@ -14,7 +14,9 @@ RULE = (
     "make_transient_to_detached on 1-3 generated objects of a one-column mapped class (primary keys drawn from "
     "{1,1,2} so that identities collide, 0-2 rows pre-inserted, expire_on_commit on/off) driven against a real "
     "Session on in-memory SQLite: all 1000 histories of length 3 on one object, 2-object histories of "
-    "length 2 (every second quick, all 400 thorough), the defect histories, and random histories of length <= 10 (three operation weightings); "
+    "length 2 (every second quick, all 400 thorough), tours (a flushed / unflushed delete, two operations, flush, "
+    "commit), SAVEPOINT histories with begin_nested / release / rollback-to-savepoint (judged by the oracle only: the "
+    "Coq model has no nested transactions), the defect histories, and random histories of length <= 10 (three operation weightings); "
     "thorough: all 10^4 one-object histories of length 4 and 20000 random ones.  Before every operation the "
     "harness records what the model takes as environment (rows visible on the session's connection, "
     "identity_map.check_modified(), per object expired / pk-expired / pk-loaded); after it: the five "
@@ -34,7 +36,7 @@ TRUSTED = [
     "identity_map.check_modified() and the raw DBAPI connection shared with the Session (SingletonThreadPool)",
 ]
 ASSUMPTIONS = [
-    "one Session, no SAVEPOINTs, no relationships/cascades, objects kept alive by the caller (no weak-reference "
+    "one Session, SAVEPOINT histories oracle-only (no model, no theorem), no relationships/cascades, objects kept alive by the caller (no weak-reference "
     "collection), single-column primary key set by the application",
     "histories are cut when an object without identity key has lost its primary-key value, when two pending "
     "objects share a primary key (outcome depends on Python set iteration order), and after a rollback() that raised",
@@ -519,7 +521,8 @@ LEVEL_TEXT = (
     "event table regenerated from the source on every run, and model/implementation correspondence on histories."
 )
 LEVEL_NOTE = (
-    "partial: one Session without SAVEPOINTs, relationships/cascades, weak-reference collection or autoflush by "
+    "partial: one Session; SAVEPOINT histories are run on the implementation and judged by the oracle only (the model "
+    "and the theorems have no nested transactions); no relationships/cascades, weak-reference collection or autoflush by "
     "queries; database rows and attribute expiry are environment inputs (quantified in the theorems, observed from "
     "the implementation in the correspondence); histories are cut where an identity-less object has lost its pk "
     "value or two pending objects share a pk.  The guard is conservative in one place (Session.delete of an object "
